@@ -26,6 +26,8 @@
 //!   ndl base=<k>                        the network is built from an NDL description generated from the `mod` / `link`
 //!                                       lines (`ndl_text`): root `^` = entry type `Top`, which inherits type `Base`
 //!                                       (the first k submodules) and adds the others; flat, channel-less links
+//!   body map|set <n>                    every `send` carries (serial, HashMap<u32, String> | HashSet<String>) with n entries of
+//!                                       different sizes; the probe's `xmit` line ends with Message::length()
 //!   rule <path> start|end|msg:<kind> <step>...      first matching rule wins
 //!   task <tag> <step>...
 //!   step = draw | draw32 | send:<dst>:<kind>[:<delay>] (send / send_in) | sched:<delay>:<kind> | spawn:<task>
@@ -105,6 +107,46 @@ struct Net {
     tasks: Vec<(String, Vec<Step>)>,
     /// `ndl base=<k>`: the network is built from a generated NDL description (see `ndl_text`)
     ndl: Option<usize>,
+    /// `body map|set <n>`: every `send` carries, next to its serial number, a std HashMap<u32, String> / HashSet<String>
+    /// with n entries of different sizes (the same logical content in every execution)
+    body: Option<(bool, usize)>,
+}
+
+/// length of the i-th map value / set element
+fn map_val_len(i: usize) -> usize {
+    1 + (i * 7) % 13
+}
+fn set_elem_len(i: usize) -> usize {
+    3 + (i * 5) % 11
+}
+
+fn body_map(n: usize) -> std::collections::HashMap<u32, String> {
+    (0..n).map(|i| ((i as u32).wrapping_mul(2_654_435_761), "x".repeat(map_val_len(i)))).collect()
+}
+fn body_set(n: usize) -> std::collections::HashSet<String> {
+    (0..n).map(|i| format!("{:03}{}", i, "y".repeat(set_elem_len(i) - 3))).collect()
+}
+
+/// the message of an emission: serial number, and the hash-table body if the case asks for one
+fn with_body(net: &Net, msg: Message, serial: u64) -> Message {
+    match net.body {
+        Some((true, n)) => msg.with_content((serial, body_map(n))),
+        Some((false, n)) => msg.with_content((serial, body_set(n))),
+        None => msg.with_content(serial),
+    }
+}
+
+fn serial_of(msg: &Message) -> u64 {
+    if let Some(x) = msg.try_content::<u64>() {
+        return *x;
+    }
+    if let Some(x) = msg.try_content::<(u64, std::collections::HashMap<u32, String>)>() {
+        return x.0;
+    }
+    if let Some(x) = msg.try_content::<(u64, std::collections::HashSet<String>)>() {
+        return x.0;
+    }
+    0
 }
 
 fn parse_step(t: &str) -> Option<Step> {
@@ -177,6 +219,13 @@ fn parse(body: &[String]) -> Net {
     }
     for line in body {
         let t: Vec<&str> = line.split_whitespace().collect();
+        if let ["body", kind, n] = t.as_slice() {
+            if let Ok(n) = n.parse::<usize>() {
+                if (*kind == "map" || *kind == "set") && n <= 999 {
+                    net.body = Some((*kind == "map", n));
+                }
+            }
+        }
         if let ["ndl", kv] = t.as_slice() {
             if let Some(k) = kv.strip_prefix("base=").and_then(|v| v.parse::<usize>().ok()) {
                 net.ndl = Some(k);
@@ -282,9 +331,10 @@ struct XProbe {
 }
 impl des::net::channel::ChannelProbe for XProbe {
     fn on_message_transmit(&mut self, _: &ChannelMetrics, msg: &Message) {
-        let serial = msg.try_content::<u64>().copied().unwrap_or(0);
+        let serial = serial_of(msg);
         let t = SimTime::now().as_nanos();
-        sh().log.push(format!("{t} - xmit {} {} {serial}", self.src, self.dst));
+        // the length the channel computes the transmission time from
+        sh().log.push(format!("{t} - xmit {} {} {serial} {}", self.src, self.dst, msg.length()));
     }
 }
 
@@ -302,9 +352,9 @@ fn make_channel(l: &Link) -> Option<des::net::channel::ChannelRef> {
 }
 
 /// transmission time of one (72 byte) harness message on the channel of a link, as the code computes it
-fn tx_of(l: &Link) -> u128 {
+fn tx_of(net: &Net, l: &Link) -> u128 {
     match make_channel(l) {
-        Some(ch) => ch.calculate_busy(&Message::default().with_content(0u64)).as_nanos(),
+        Some(ch) => ch.calculate_busy(&with_body(net, Message::default(), 0)).as_nanos(),
         None => 0,
     }
 }
@@ -372,7 +422,7 @@ fn step_sync(net: &Net, path: &str, st: &Step, ttl: u16, who: &str) {
                 s.serial
             };
             obs("send", who, dst, &[*kind as u64, (ttl - 1) as u64, serial, *delay]);
-            let msg = Message::default().kind(*kind).id(ttl - 1).with_content(serial);
+            let msg = with_body(net, Message::default().kind(*kind).id(ttl - 1), serial);
             if *delay == 0 {
                 send(msg, gate_o(dst).as_str());
             } else {
@@ -592,7 +642,7 @@ impl Module for Node {
         let kind = msg.header().kind;
         let ttl = msg.header().id;
         let sender = msg.header().sender_module_id.0;
-        let serial = msg.try_content::<u64>().copied().unwrap_or(0);
+        let serial = serial_of(&msg);
         // the sender's ModuleId is resolved to a path: ids are compared, never printed
         let src = sh().ids.iter().find(|x| x.0 == sender).map(|x| x.1.clone()).unwrap_or_else(|| "-".into());
         obs("msg", "H", &src, &[kind as u64, ttl as u64, serial]);
@@ -937,10 +987,11 @@ pub fn exec(input: &str) -> String {
             writeln!(out, "{l}").unwrap();
         }
         // measured transmission times (a parameter of the model)
-        for l in &parse(body).links {
+        let pnet = parse(body);
+        for l in &pnet.links {
             if let Some((_, _, rate)) = l.chan {
                 if rate != 0 {
-                    writeln!(out, "tx {} {} {}", l.src, l.dst, tx_of(l)).unwrap();
+                    writeln!(out, "tx {} {} {}", l.src, l.dst, tx_of(&pnet, l)).unwrap();
                 }
             }
         }
@@ -1097,6 +1148,7 @@ fn gen_case(r: &mut Rng, out: &mut String, noise: bool, local: bool) {
         }
     }
     let mut peers: Vec<Vec<String>> = vec![Vec::new(); nmods];
+    let mut has_rate = false;
     for (a, b) in &edges {
         for (s, d) in [(*a, *b), (*b, *a)] {
             if ndl || r.chance(1, 6) {
@@ -1105,10 +1157,17 @@ fn gen_case(r: &mut Rng, out: &mut String, noise: bool, local: bool) {
                 let jit = if restartable[d] { 0 } else { *r.pick(&JITS) };
                 // one channel in three has a bitrate: it is busy while it transmits and queues what comes then
                 let rate = if r.chance(1, 3) { format!(" rate={}", r.pick(&RATES)) } else { String::new() };
+                has_rate |= !rate.is_empty();
                 writeln!(out, "link {} {} lat={} jit={jit}{rate}", paths[s], paths[d], r.pick(&LATS)).unwrap();
             }
             peers[s].push(paths[d].clone());
         }
+    }
+    // with bitrate channels around, one case in three sends hash-table bodies (17-64 entries of different sizes): the
+    // message length, hence transmission time, busy periods and delivery times, must not depend on the table's
+    // iteration order
+    if has_rate && r.chance(1, 3) {
+        writeln!(out, "body {} {}", if r.chance(1, 2) { "map" } else { "set" }, r.range(17, 64)).unwrap();
     }
     let kinds = r.range(2, 4);
     if ndl && r.chance(1, 2) {
